@@ -403,13 +403,10 @@ class Soap12Binding(SoapBinding):
         )
 
     def _set_http_headers(self, serialized, operation):
-        serialized.headers["Content-Type"] = "; ".join(
-            [
-                "application/soap+xml",
-                "charset=utf-8",
-                'action="%s"' % operation.soapaction,
-            ]
-        )
+        parts = ["application/soap+xml", "charset=utf-8"]
+        if operation.soapaction is not None:
+            parts.append('action="%s"' % operation.soapaction)
+        serialized.headers["Content-Type"] = "; ".join(parts)
 
 
 class SoapOperation(Operation):
